@@ -93,6 +93,24 @@ def cut_spec(breaks, x, code, closed):
     )
 
 
+def cut_clauses(breaks, by, idx, closed):
+    """cut_spec for every element, split into three small clauses (one disjunction with a nested quantifier was an
+    unstable query: 0.5 s .. 25 s for the same formula under load):
+      codes are -1 or an interval number; a code >= 0 names an interval containing the value; a value coded -1 lies in no interval."""
+    nb = breaks.length
+    k, j = fresh("k"), fresh("j")
+    if closed == "right":
+        inside = lambda t, x: z3.And(V.v_lt(breaks.at(t), x), V.v_le(x, breaks.at(t + 1)))
+    else:
+        inside = lambda t, x: z3.And(V.v_le(breaks.at(t), x), V.v_lt(x, breaks.at(t + 1)))
+    n = by.length
+    return [
+        ("pandas_cut.code_is_minus_one_or_an_interval_number", forall(k, z3.Implies(in_range(k, 0, n), z3.And(idx.at(k) >= -1, idx.at(k) < nb - 1)))),
+        ("pandas_cut.value_lies_in_the_interval_it_is_coded_with", forall(k, z3.Implies(z3.And(in_range(k, 0, n), idx.at(k) >= 0), inside(idx.at(k), by.at(k))))),
+        ("pandas_cut.value_coded_minus_one_lies_in_no_interval", z3.ForAll([k, j], z3.Implies(z3.And(in_range(k, 0, n), idx.at(k) == -1, in_range(j, 0, nb - 1)), z3.Not(inside(j, by.at(k)))))),
+    ]
+
+
 def fs_interval_contract(closed):
     def params(ex):
         breaks = sym_seq("breaks", R)
@@ -111,11 +129,29 @@ def fs_interval_contract(closed):
         return [
             ("groups_are_the_requested", z3.BoolVal(found is e["expect"])),
             ("length", idx.length == by.length),
-            ("pandas_cut", forall(k, z3.Implies(in_range(k, 0, by.length), cut_spec(b, by.at(k), idx.at(k), closed)))),
-        ]
+        ] + cut_clauses(b, by, idx, closed)
 
-    return Contract(qualname="_factorize_single", file="flox/core.py", prefix=f"C07.factorize_single.cut_{closed}", params=params, requires=requires, ensures=ensures, raises=("NotImplementedError",), serves=("C07", "C05"),
+    c = Contract(qualname="_factorize_single", file="flox/core.py", prefix=f"C07.factorize_single.cut_{closed}", params=params, requires=requires, ensures=ensures, raises=("NotImplementedError",), serves=("C07", "C05"),
                     assumed=("numpy.digitize on increasing bins (count of bins below x; NaN after every bin)", "IntervalIndex.left/right/closed of contiguous intervals", "numpy.concatenate", "ndarray.max"))
+
+    # intermediate facts, each proved once where the variable is assigned and used afterwards (keeps the final queries
+    # small and stable: the postcondition proved in one piece took anything between 0.5 s and a timeout under load)
+    def cut_bins(ex, env):
+        bins, b = env["bins"], env["expect"].breaks
+        j = fresh("j")
+        n = z3.If(b.length >= 2, b.length, 0)  # an IntervalIndex without intervals has no edges at all
+        return [("are_the_breaks", z3.And(bins.length == n, forall(j, z3.Implies(in_range(j, 0, n), bins.at(j) == b.at(j))))),
+                ("__rebind__", SSeq(n, b.fn, kind="array", elem_sort=b.elem_sort, name="bins_as_breaks"))]
+
+    def cut_within(ex, env):
+        w, b, by = env["within_bins"], env["expect"].breaks, env["by"]
+        k = fresh("k")
+        last = b.at(b.length - 1)
+        cmp_ = (lambda x: V.v_le(x, last)) if closed == "right" else (lambda x: V.v_lt(x, last))
+        return [("compares_with_the_last_break", z3.And(w.length == by.length, forall(k, z3.Implies(in_range(k, 0, by.length), w.at(k) == cmp_(by.at(k))))))]
+
+    c.cuts = {"bins": cut_bins, "within_bins": cut_within}
+    return c
 
 
 def replay_cut(closed):
